@@ -190,12 +190,14 @@ def check(run, model, tier):
         built.append(o)
         return o
     payloads = [None, 'p', 7, 0, '', False, [], {}, {'k': [1, 'x', None]}, [1, [2, 3]], 1.5]
+    # the event handed to dumps is a real Event: its own (pure) methods are available to the evaluated code
+    emethods = {k: f_.node for k, f_ in ev.methods.items() if k not in ('__init__', 'dumps', 'loads')}
     bad = None
     try:
         for P in payloads:
-            e0 = pureeval.Obj(signal_name='SIG_A', payload=P, signal=42)
+            e0 = pureeval.Obj(signal_name='SIG_A', payload=P, signal=42, __world__=True)
             try:
-                text = pureeval.call(dumps.node, [e0], globals_={'json': json_obj, 'None': None}, strict_locals=True)
+                text = pureeval.call(dumps.node, [e0], globals_={'json': json_obj, 'None': None}, strict_locals=True, methods=emethods)
                 del built[:]
                 back = pureeval.call(loads.node, [text], globals_={'json': json_obj, 'Event': fake_event, 'None': None}, strict_locals=True)
                 got = (getattr(back, 'signal_name', '<no event>'), getattr(back, 'payload', '<no event>')) if isinstance(back, pureeval.Obj) else ('<%r>' % (back,), None)
@@ -206,5 +208,6 @@ def check(run, model, tier):
         run.inst('TABLE.roundtrip-eval', dumps, 'loads(dumps(e)) over %d payloads' % len(payloads), bad is None,
                  '' if bad is None else 'for an event SIG_A with payload %r the trip gives %r / %r' % (bad[0], bad[1][0], bad[1][1]), obligation=True)
     except AnalysisError as ex_:
-        run.note('Event.dumps/loads are outside the evaluator\'s fragment (%s): decided by the table rules only' % ex_)
+        # the table rules alone cannot see which value reaches a key on which path (see the `sweep-payload-*` mutants): without the evaluation the property is not decided
+        raise AnalysisError('Event.dumps/loads cannot be followed by the evaluator (%s): the round trip is not decided' % ex_)
     run.assume('json.dumps/json.loads are inverse on JSON-representable payloads (stdlib)')
